@@ -10,6 +10,22 @@ VERIF = os.path.dirname(os.path.dirname(os.path.abspath(__file__)))
 ALL = ["C%02d" % i for i in range(1, 21)]
 
 CHECKS = {
+    "C01": dict(
+        category="model_checking",
+        text="Assembler.tla + DataModel.tla: TLC enumerates every value inside the bounds together with every legal route "
+             "of assembler calls that constructs it (entry shortcut / key+value, Assign<Kind> / AssignNode of nodes from "
+             "other implementations, size hints) and checks on the specification that all read forms agree (ObsAgree) and "
+             "that the built value is the fold of the accepted calls. The harness replays each behaviour on basicnode "
+             "Any/Map/List/scalar prototypes and bindnode typed containers/scalars, reads the built node through every "
+             "read form (length, both iterators, lookups by string/node/index/segment, every As* accessor under recover) "
+             "and compares with Obs of the specified value; DeepEqual and Copy are cross-checked across implementations.",
+        design_ref="DESIGN.md section 4, C01",
+        note="Bounded (<= 5 values per tree, depth <= 3); scalar payloads from 4 adversarial concretisation profiles; "
+             "generated-code nodes are covered under C13; trusted: TLC, harness/model projection (self-tested each run "
+             "against a reference node and 7 broken-node variants).",
+        technique="TLA+ state machine + observation-vector oracle, TLC-generated behaviours replayed into the real builders",
+        engine="tlc+vh",
+    ),
     "C12": dict(
         category="model_checking",
         text="Assembler.tla is the builder/assembler protocol as a state machine (one action per public call, the two "
